@@ -201,6 +201,10 @@ fn run_prop(prop: Prop, id: &str, tier: &Tier, rule: &str) -> Result<i32, String
     let budget = if tier.thorough { 1500.0 } else { 50.0 };
     let cfgs = configs(prop, tier.thorough);
     let mut described = Vec::new();
+    // thorough: the sequential view/trim programs take no time; every other harness gets an equal
+    // share of what is left of the budget (unused time carries over to the later ones)
+    let heavy = cfgs.iter().filter(|(_, b)| b.len() > 1).count().max(1);
+    let mut heavy_done = 0usize;
     for (cfg, bounds) in cfgs {
         // experimentation aid: VX_ONLY=<label> VX_BOUNDS="p,e,t;p,e,t" runs one harness with other bounds
         let mut bounds = bounds;
@@ -225,9 +229,12 @@ fn run_prop(prop: Prop, id: &str, tier: &Tier, rule: &str) -> Result<i32, String
             max_executions: u64::MAX,
             // quick: every listed bound is sized to complete (deterministic coverage); the wall cap is
             // only a safety net. thorough: the remaining budget is the cap and is reported when hit.
-            max_wall: Duration::from_secs_f64(if tier.thorough { remaining } else { 150.0 }),
+            max_wall: Duration::from_secs_f64(if tier.thorough { (remaining / (heavy - heavy_done).max(1) as f64).max(5.0) } else { 150.0 }),
             workers: crate::core::workers(),
         };
+        if bounds.len() > 1 {
+            heavy_done += 1;
+        }
         let known = crate::report::Known::load();
         let is_known = |s: &str| known.find(id, s).is_some();
         let st = explore_iterative(&h, &bounds, &lim, tier.seed, &is_known)?;
